@@ -268,28 +268,34 @@ Example C16_hyps_satisfiable :
   (let w := fun (_ _ : nat) => Q2Qc (1#2) in
    (forall b, (b < 2)%nat -> fle 0 (w 0%nat b)) /\ sumn 2 (w 0%nat) = 1).
 Proof.
-  cbv zeta. repeat split.
-  - intros i Hi. destruct i as [|[|i]]; try lia; vm_compute; reflexivity.
-  - intros j Hj. destruct j as [|[|[|j]]]; try lia; vm_compute; reflexivity.
-  - intros i Hi. destruct i as [|[|i]]; try lia; vm_compute; reflexivity.
-  - intros i j Hi Hj. destruct i as [|[|[|i]]]; try lia; destruct j as [|[|[|[|j]]]]; try lia;
-      first [now (intros _; vm_compute)|intros H; vm_compute in H; discriminate H].
-  - intros i j Hi Hj. destruct i as [|[|[|i]]]; try lia; destruct j as [|[|[|[|j]]]]; try lia;
-      first [now (intros _; vm_compute)|intros H; vm_compute in H; discriminate H].
-  - intros i j Hi Hj. destruct i as [|[|[|i]]]; try lia; destruct j as [|[|[|j]]]; try lia;
-      first [now (intros _; vm_compute)|intros H; vm_compute in H; discriminate H].
-  - intros i j Hi Hj. destruct i as [|[|[|[|i]]]]; try lia; destruct j as [|[|[|[|j]]]]; try lia;
-      first [now (intros _; vm_compute)|intros H; vm_compute in H; discriminate H].
-  - intros i Hi. destruct i as [|[|i]]; try lia; vm_compute; reflexivity.
-  - intros j Hj. destruct j as [|[|[|j]]]; try lia; vm_compute; reflexivity.
-  - vm_compute. reflexivity.
-  - vm_compute. reflexivity.
-  - intros i Hi. destruct i as [|[|[|[|i]]]]; try lia; vm_compute; reflexivity.
-  - intros j Hj. destruct j as [|[|[|[|[|[|j]]]]]]; try lia; vm_compute; reflexivity.
-  - intros i Hi. destruct i as [|[|[|[|i]]]]; try lia; intro H; vm_compute in H; discriminate H.
-  - intros i Hi. destruct i as [|[|[|[|i]]]]; try lia; intro H; vm_compute in H; discriminate H.
-  - intros b Hb. vm_compute. reflexivity.
-  - vm_compute. reflexivity.
+  cbv zeta. split; [|split; [|split]].
+  - split; [|split].
+    + intros i Hi. destruct i as [|[|i]]; try lia; vm_compute; reflexivity.
+    + intros j Hj. destruct j as [|[|[|j]]]; try lia; vm_compute; reflexivity.
+    + intros i Hi. destruct i as [|[|i]]; try lia; vm_compute; reflexivity.
+  - split; [|split; [|split; [|split]]].
+    + unfold sin_mono. split; [|split; [|split]].
+      * intros i j Hi Hj. destruct i as [|[|[|i]]]; try lia; destruct j as [|[|[|[|j]]]]; try lia;
+          first [now (intros _; vm_compute)|intros H; vm_compute in H; discriminate H].
+      * intros i j Hi Hj. destruct i as [|[|[|i]]]; try lia; destruct j as [|[|[|[|j]]]]; try lia;
+          first [now (intros _; vm_compute)|intros H; vm_compute in H; discriminate H].
+      * intros i j Hi Hj. destruct i as [|[|[|i]]]; try lia; destruct j as [|[|[|j]]]; try lia;
+          first [now (intros _; vm_compute)|intros H; vm_compute in H; discriminate H].
+      * intros i j Hi Hj. destruct i as [|[|[|[|i]]]]; try lia; destruct j as [|[|[|[|j]]]]; try lia;
+          first [now (intros _; vm_compute)|intros H; vm_compute in H; discriminate H].
+    + intros i Hi. destruct i as [|[|i]]; try lia; vm_compute; reflexivity.
+    + intros j Hj. destruct j as [|[|[|j]]]; try lia; vm_compute; reflexivity.
+    + apply Qc_is_canon; vm_compute; reflexivity.
+    + apply Qc_is_canon; vm_compute; reflexivity.
+  - split; [|split].
+    + unfold lon_partition. split.
+      * intros i Hi. destruct i as [|[|[|[|i]]]]; try lia; apply Qc_is_canon; vm_compute; reflexivity.
+      * intros j Hj. destruct j as [|[|[|[|[|[|j]]]]]]; try lia; apply Qc_is_canon; vm_compute; reflexivity.
+    + intros i Hi. destruct i as [|[|[|[|i]]]]; try lia; intro H; vm_compute in H; discriminate H.
+    + intros i Hi. destruct i as [|[|[|[|i]]]]; try lia; intro H; vm_compute in H; discriminate H.
+  - split.
+    + intros b Hb. vm_compute. reflexivity.
+    + apply Qc_is_canon; vm_compute; reflexivity.
 Qed.
 
 Print Assumptions C16_partition_overlap.
